@@ -150,6 +150,7 @@ def boundary(t):
     return {
         "Array": [lambda: T.Array()], "Tuple": [lambda: T.Tuple()], "JSON": [lambda: T.JSON({}), lambda: T.JSON([]), lambda: T.JSON("")],
         "ValueWrapper": [lambda: T.ValueWrapper(""), lambda: T.ValueWrapper(None), lambda: T.ValueWrapper(0), lambda: T.ValueWrapper(False)],
-        "Function": [lambda: T.Function("NOW")], "Case": [lambda: P.Case().when(a() == 1, 2)], "Coalesce": [lambda: F.Coalesce(a())],
+        "Function": [lambda: T.Function("NOW"), lambda: T.Function("fx", a(), schema=Q.Schema("sch")), lambda: T.Function("gx", schema=Q.Schema("in", parent=Q.Schema("out")))],
+        "AggregateFunction": [lambda: T.AggregateFunction("agx", a(), schema=Q.Schema("sch"))], "Case": [lambda: P.Case().when(a() == 1, 2)], "Coalesce": [lambda: F.Coalesce(a())],
         "Concat": [lambda: F.Concat(a())], "LiteralValue": [lambda: T.LiteralValue("")], "Field": [lambda: T.Field("a")],
     }
